@@ -1,0 +1,323 @@
+//go:build verif
+
+package db
+
+// Contracts for property C06 (replicating peers converge). Comment-only; read by /verif/engine.
+//
+// What is decided here: the deterministic decision functions a replication run is built from -- the
+// built-in conflict resolvers and the classification of their answer, and the negotiation answers
+// (RevDiff, CheckProposedRev, CheckProposedVersion, localVersionDominates). What is NOT decided: the
+// property as stated. "Both databases hold the same revisions once replication has caught up" is a
+// statement about two databases and a protocol run (goroutines, BLIP messages, checkpoints,
+// interleaved writers); no contract on a single function says it.
+//
+// Reused from other files (one contract per function): compareRevIDs, ParseRevID, revCmp and its order lemmas,
+// RevTree.contains, RevTree.forEachLeaf, SyncData.GetRevTreeID / IsDeleted (db/zz_verif_c04.go); IsInConflict and every
+// HybridLogicalVector function (db/zz_verif_c10.go).
+
+//@ props C06
+
+// ---- what a conflict resolver looks at ----
+
+//@ func Body.IsDeleted
+//@   pure
+
+// the "_rev" member as DefaultConflictResolver reads it: "" unless it is a string
+//@ pred bodyRev(b Body) string
+//@   is ite(dynType(b[BodyRev]) == typeTag(string), unbox(b[BodyRev], string), "")
+
+// ---- the built-in resolvers ----
+
+//@ func LocalWinsConflictResolver
+//@   safety on
+//@   ensures[local] isNilErr(err) && winner == conflict.LocalDocument
+
+//@ func RemoteWinsConflictResolver
+//@   safety on
+//@   ensures[remote] isNilErr(err) && winner == conflict.RemoteDocument
+
+// DefaultConflictResolver picks the document whose (deleted, generation, digest) key is higher; the local one on a tie.
+//@ pred defaultPicksLocal(l Body, r Body) bool
+//@   is ite(l.IsDeleted() != r.IsDeleted(), l.IsDeleted(), revCmp(bodyRev(l), bodyRev(r)) >= 0)
+
+//@ func DefaultConflictResolver
+//@   safety on
+//@   ensures[no-error] isNilErr(err)
+//@   ensures[winner]   result == ite(defaultPicksLocal(conflict.LocalDocument, conflict.RemoteDocument), conflict.LocalDocument, conflict.RemoteDocument)
+
+// DefaultLWWConflictResolutionType picks a tombstone over a live document, otherwise the document whose current
+// version has the higher Value; the local one when the values are equal.
+//@ pred lwwPicksLocal(l Body, r Body, lh *HybridLogicalVector, rh *HybridLogicalVector) bool
+//@   is ite(l.IsDeleted() != r.IsDeleted(), l.IsDeleted(), !(rh.Version > lh.Version))
+
+//@ func DefaultLWWConflictResolutionType
+//@   safety on
+//@   ensures[nil-hlv] !isNilErr(result1) <==> conflict.LocalHLV == nil || conflict.RemoteHLV == nil
+//@   ensures[winner]  isNilErr(result1) ==> result0 == ite(lwwPicksLocal(conflict.LocalDocument, conflict.RemoteDocument, conflict.LocalHLV, conflict.RemoteHLV), conflict.LocalDocument, conflict.RemoteDocument)
+
+// ---- "a single winner that both sides adopt" ----
+//
+// The same pair of documents is a conflict on both peers, with the roles swapped: what is Local on one side is
+// Remote on the other. Both peers adopt the same document exactly when the resolver, given (L, R), picks the document
+// that it picks given (R, L): picksLocal(L, R) <==> !picksLocal(R, L). The only excuse is that L and R are the same
+// revision (then "each side keeps its own" is still one winner).
+
+// LocalWins / RemoteWins are by design not symmetric (each peer keeps its own / takes the other's): with these policies
+// a single winner needs the two peers to be configured with opposite policies. Nothing to prove.
+
+// DefaultConflictResolver: a single winner unless the two revision ids compare equal and the tombstone flags agree.
+//@ lemma default_resolver_symmetric(l Body, r Body)
+//@   ensures[single-winner] revCmp(bodyRev(l), bodyRev(r)) != 0 || l.IsDeleted() != r.IsDeleted() ==> (defaultPicksLocal(l, r) <==> !defaultPicksLocal(r, l))
+//@   ensures[tie-same-rev]  revCmp(bodyRev(l), bodyRev(r)) == 0 ==> pGen(bodyRev(l)) == pGen(bodyRev(r)) && pDig(bodyRev(l)) == pDig(bodyRev(r))
+// tombstone precedence: a tombstone wins over a live document whatever the revision ids
+//@ lemma default_resolver_tombstone_wins(l Body, r Body)
+//@   ensures[tombstone-local]  l.IsDeleted() && !r.IsDeleted() ==> defaultPicksLocal(l, r)
+//@   ensures[tombstone-remote] !l.IsDeleted() && r.IsDeleted() ==> !defaultPicksLocal(l, r)
+
+// DefaultLWWConflictResolutionType: a single winner unless both documents carry the same current version (same source
+// and same value).
+// CANDIDATE FINDING F5 (kept as a failing clause; the solver refutes it at once). The resolver compares only the Value
+// of the two current versions (`if Remote.Version > Local.Version {remote} else {local}`) and never the source id. Input:
+// both documents live (or both tombstones), LocalHLV = {SourceID "clusterA", Version v}, RemoteHLV = {SourceID "clusterB",
+// Version v} with the same v: neither value is greater, so with (L, R) it answers L and with (R, L) it answers R -- each
+// peer keeps its own revision, although IsInConflict reports a conflict on both sides and the two revisions differ.
+// There is no deterministic tie-break (DefaultConflictResolver has one: the digest). Reproduced on the real code:
+// /verif/findings/C06_lww_resolver_asymmetric_test.go (peer A keeps v@clusterA, peer B keeps v@clusterB, both "local").
+// What the run of the protocol then does with the two "local wins" results is outside what a contract can say.
+//@ lemma lww_resolver_symmetric(l Body, r Body, lh *HybridLogicalVector, rh *HybridLogicalVector)
+//@   requires lh != nil && rh != nil
+//@   ensures[single-winner] !(lh.SourceID == rh.SourceID && lh.Version == rh.Version) ==> (lwwPicksLocal(l, r, lh, rh) <==> !lwwPicksLocal(r, l, rh, lh))
+// what does hold: a single winner whenever the tombstone flags differ or the two values differ
+//@ lemma lww_resolver_symmetric_unless_equal_values(l Body, r Body, lh *HybridLogicalVector, rh *HybridLogicalVector)
+//@   requires lh != nil && rh != nil
+//@   ensures[single-winner]    l.IsDeleted() != r.IsDeleted() || lh.Version != rh.Version ==> (lwwPicksLocal(l, r, lh, rh) <==> !lwwPicksLocal(r, l, rh, lh))
+//@   ensures[tombstone-local]  l.IsDeleted() && !r.IsDeleted() ==> lwwPicksLocal(l, r, lh, rh)
+//@   ensures[tombstone-remote] !l.IsDeleted() && r.IsDeleted() ==> !lwwPicksLocal(l, r, lh, rh)
+//@   ensures[each-keeps-own]   l.IsDeleted() == r.IsDeleted() && lh.Version == rh.Version ==> lwwPicksLocal(l, r, lh, rh) && lwwPicksLocal(r, l, rh, lh)
+
+// ---- classification of the resolver's answer ----
+
+// Resolve runs the configured resolver function and classifies its answer by the "_rev" member: the local document won
+// when the answer carries the local document's "_rev", the remote one when it carries the remote's (and not the
+// local's), anything else (no "_rev", or a foreign one) is a merge.
+//@ pred sameRevMember(winner Body, doc Body) bool
+//@   is (BodyRev in winner) && (BodyRev in doc) && doc[BodyRev] == winner[BodyRev]
+
+//@ func ConflictResolver.Resolve
+//@   requires c != nil && c.stats != nil
+//@   modifies *
+//@   ensures[answer]     winner == callres(dynamic, 1, 0)      // the resolver function's own answer is handed on unchanged
+//@   ensures[error]      !isNilErr(err) ==> resolutionType == ""
+//@   ensures[classified] isNilErr(err) ==> resolutionType == ConflictResolutionLocal || resolutionType == ConflictResolutionRemote || resolutionType == ConflictResolutionMerge
+//@   ensures[local]      isNilErr(err) ==> (resolutionType == ConflictResolutionLocal <==> sameRevMember(winner, conflict.LocalDocument))
+//@   ensures[remote]     isNilErr(err) ==> (resolutionType == ConflictResolutionRemote <==> !sameRevMember(winner, conflict.LocalDocument) && sameRevMember(winner, conflict.RemoteDocument))
+
+// ResolveForHLV: the same classification by the "_cv" member; an answer carrying a foreign "_cv" is an error, not a merge.
+//@ pred sameCVMember(winner Body, doc Body) bool
+//@   is (BodyCV in winner) && (BodyCV in doc) && doc[BodyCV] == winner[BodyCV]
+
+//@ func ConflictResolver.ResolveForHLV
+//@   requires c != nil && c.stats != nil
+//@   modifies *
+//@   ensures[answer]     winner == callres(dynamic, 1, 0)      // the resolver function's own answer is handed on unchanged
+//@   ensures[error]      !isNilErr(err) ==> resolutionType == ""
+//@   ensures[classified] isNilErr(err) ==> resolutionType == ConflictResolutionLocal || resolutionType == ConflictResolutionRemote || resolutionType == ConflictResolutionMerge
+//@   ensures[local]      isNilErr(err) ==> (resolutionType == ConflictResolutionLocal <==> sameCVMember(winner, conflict.LocalDocument))
+//@   ensures[remote]     isNilErr(err) ==> (resolutionType == ConflictResolutionRemote <==> !sameCVMember(winner, conflict.LocalDocument) && sameCVMember(winner, conflict.RemoteDocument))
+//@   ensures[merge]      isNilErr(err) ==> (resolutionType == ConflictResolutionMerge <==> !(BodyCV in winner))
+
+// ---- both peers agree on whether two vectors conflict ----
+
+// IsInConflict (contract in db/zz_verif_c10.go) reports HLVConflict exactly when inConflict(local, incoming) below holds.
+// The relation is symmetric: the peer that holds b and is offered a sees a conflict exactly when the peer that holds a
+// and is offered b does -- a conflict is never resolved on one side and silently overwritten on the other.
+//@ pred inConflict(l *HybridLogicalVector, in *HybridLogicalVector) bool
+//@   is !l.EqualCV(in) && !in.DominatesSource(Version{SourceID: l.SourceID, Value: l.Version}) && !l.DominatesSource(Version{SourceID: in.SourceID, Value: in.Version}) && !sameMerge(in, l)
+//@ lemma conflict_detection_symmetric(a *HybridLogicalVector, b *HybridLogicalVector)
+//@   requires a != nil && b != nil
+//@   ensures[symmetric] inConflict(a, b) <==> inConflict(b, a)
+
+// ---- negotiation: what a peer answers when it is offered a revision ----
+
+// GetDocSyncDataNoImport is TRUSTED (thin contract of a storage read). Its body is dataStore.GetXattrs (an interface
+// call into the bucket) followed by unmarshalDocumentWithXattrs (JSON decoding of the _sync and _vv xattrs into a NEW
+// Document) and it returns &doc.SyncData and doc.HLV of that new document. What is assumed:
+//  - it changes no memory that existed before the call (it only reads the bucket and allocates);
+//  - on success the SyncData is a fresh non-nil object and an HLV, if any, is fresh as well;
+//  - the revision tree of the result is well-formed (treeWF): RevTree.UnmarshalJSON files every node it builds under
+//    its own id (`info := RevInfo{ID: revid}; (*tree)[revid] = &info`, db/revtree.go:148-168); at the unmarshal levels
+//    that skip the history the tree is nil (no entries);
+//  - on error both results are nil (the three error returns of the body).
+// NOT assumed: any relation between the result and what was stored earlier -- the contracts below speak about "the
+// metadata this call returned", which is the document the peer has at the moment it answers.
+//@ func DatabaseCollection.GetDocSyncDataNoImport
+//@   trusted
+//@   ensures[loaded]    isNilErr(result2) ==> result0 != nil && !old(allocated(now(result0))) && treeWF(result0.History)
+//@   ensures[hlv-fresh] isNilErr(result2) && result1 != nil ==> !old(allocated(now(result1)))
+//@   ensures[error]     !isNilErr(result2) ==> result0 == nil && result1 == nil
+
+// "the document does not exist here": the two error classes the negotiation functions treat as absence
+//@ pred absentErr(e error) bool
+//@   is isDocNotFoundErr(e) || isXattrNotFoundErr(e)
+
+// users cannot upload design documents: such ids are skipped by every negotiation function
+//@ pred skippedDesignDoc(db *DatabaseCollectionWithUser, docid string) bool
+//@   is c19HasPrefix(docid, "_design/") && db.user != nil
+
+// CheckProposedRev answers a proposeChanges entry (revision revid whose parent is parentRevID) from the metadata it
+// loads (sd = first result of the load, e = its error):
+//  - Exists exactly when revid is the document's current revision. (The plan asked for "Exists <==> revid is in the
+//    history"; the code looks at the current revision only -- it loads the metadata without the history -- so an older
+//    revision of the history is answered Conflict, not Exists. Stated as the code has it; see the report.)
+//  - OK only when the parent is the current revision, or the proposal is a new root on a tombstoned document;
+//    OK_IsNew only when the document is absent;
+//  - a current revision is never answered OK: a caught-up peer that is offered its own current revision again
+//    transfers nothing.
+//@ func DatabaseCollectionWithUser.CheckProposedRev
+//@   safety on
+//@   requires db != nil
+//@   ensures[design-doc] skippedDesignDoc(db, docid) ==> status == ProposedRev_OK && currentRev == "" && !called(GetDocSyncDataNoImport, 1)
+//@   ensures[loads]      !skippedDesignDoc(db, docid) ==> called(GetDocSyncDataNoImport, 1)
+//@   ensures[new-doc]    called(GetDocSyncDataNoImport, 1) && !isNilErr(callres(GetDocSyncDataNoImport, 1, 2)) ==> status == ite(absentErr(callres(GetDocSyncDataNoImport, 1, 2)), ProposedRev_OK_IsNew, ProposedRev_Error) && currentRev == ""
+//@   ensures[exists]     called(GetDocSyncDataNoImport, 1) && isNilErr(callres(GetDocSyncDataNoImport, 1, 2)) ==> (status == ProposedRev_Exists <==> callres(GetDocSyncDataNoImport, 1, 0).GetRevTreeID() == revid)
+//@   ensures[ok-iff]     called(GetDocSyncDataNoImport, 1) && isNilErr(callres(GetDocSyncDataNoImport, 1, 2)) ==> (status == ProposedRev_OK <==> callres(GetDocSyncDataNoImport, 1, 0).GetRevTreeID() != revid && (callres(GetDocSyncDataNoImport, 1, 0).GetRevTreeID() == parentRevID || (parentRevID == "" && callres(GetDocSyncDataNoImport, 1, 0).IsDeleted())))
+//@   ensures[conflict]   called(GetDocSyncDataNoImport, 1) && isNilErr(callres(GetDocSyncDataNoImport, 1, 2)) ==> status == ProposedRev_Exists || status == ProposedRev_OK || (status == ProposedRev_Conflict && currentRev == callres(GetDocSyncDataNoImport, 1, 0).GetRevTreeID())
+//@   ensures[is-new-only-if-absent] status == ProposedRev_OK_IsNew ==> called(GetDocSyncDataNoImport, 1) && absentErr(callres(GetDocSyncDataNoImport, 1, 2))
+
+// ---- version-vector protocol: is an offered change already known? ----
+
+//@ func HybridLogicalVector.HasRevEncodedCV
+//@   pure
+//@ func Version.Equal
+//@   pure
+// the generation packed into the upper 24 bits of a version value that encodes a legacy revision id
+//@ func GetGenerationFromEncodedVersionValue
+//@   pure
+
+// CheckChangeVersion reports an offered change as missing unless localVersionDominates(local vector, offered version).
+// It answers "known" only for a version the local vector dominates (never for a version the peer does not have), and
+// it always answers "known" for the document's own current version: a caught-up peer that is offered the current
+// version again asks for nothing. The one exception to "dominated ==> known" is the legacy case in the code: both
+// versions encode revision ids, they differ, and their generations are equal (a conflicting sibling, wanted).
+//@ pred encodedSiblings(h *HybridLogicalVector, v Version) bool
+//@   is h.HasRevEncodedCV() && v.SourceID == encodedRevTreeSourceID && !(h.SourceID == v.SourceID && h.Version == v.Value) &&
+//@      GetGenerationFromEncodedVersionValue(h.Version) == GetGenerationFromEncodedVersionValue(v.Value)
+
+//@ func localVersionDominates
+//@   safety on
+//@   requires localHLV != nil
+//@   ensures[spec]            result <==> localHLV.DominatesSource(changeCV) && !encodedSiblings(localHLV, changeCV)
+//@   ensures[only-dominated]  result ==> localHLV.DominatesSource(changeCV)
+//@   ensures[current-known]   localHLV.SourceID != "" && changeCV.SourceID == localHLV.SourceID && changeCV.Value == localHLV.Version ==> result
+//@   ensures[frame]           localHLV.SourceID == old(localHLV.SourceID) && localHLV.Version == old(localHLV.Version)
+
+// extractHLVFromBlipString is TRUSTED (thin frame contract of a parser). Its body splits the string and fills a NEW
+// HybridLogicalVector (`hlv := &HybridLogicalVector{}`, maps made with make) -- it writes no memory that existed before
+// the call; every error return gives a nil vector, every success return gives that new vector.
+//@ func extractHLVFromBlipString
+//@   trusted
+//@   ensures[parsed] isNilErr(result2) ==> result0 != nil && !old(allocated(now(result0)))
+//@   ensures[error]  !isNilErr(result2) ==> result0 == nil
+
+// CheckProposedVersion answers a proposeChanges entry of the version-vector protocol from the metadata it loads
+// (sd, hlv, e = results of the load; sd's current revision-tree id; hlv's current version (hlv.SourceID, hlv.Version)).
+// (The locals localDocCV / previousVersion cannot be named in the clauses: they do not exist yet at the early returns --
+// engine message "local not initialised" -- so they are spelled out: localDocCV is hlv's current version, previousVersion
+// is the result of the second ParseVersion call when it is made and the zero Version otherwise.)
+// The two ways in which the proposal's parent is the peer's current revision:
+//@ pred parentIsCurrentRevTreeID(isTreeID bool, sd *SyncData, previousRev string) bool
+//@   is isTreeID && sd.GetRevTreeID() == previousRev
+//@ pred parentIsCurrentVersion(isTreeID bool, h *HybridLogicalVector, parsedPrevious bool, previous Version) bool
+//@   is !isTreeID && h.SourceID == ite(parsedPrevious, previous.SourceID, "") && h.Version == ite(parsedPrevious, previous.Value, 0)
+// the proposal descends from the peer's current version although the parent sent does not match: same source and a
+// higher value, or (CBG-4466, marked temporary in the code) the proposal's full vector dominates the peer's current version
+//@ pred sameSourceNewer(h *HybridLogicalVector, proposed Version) bool
+//@   is h.SourceID == proposed.SourceID && h.Version < proposed.Value
+
+//@ func DatabaseCollectionWithUser.CheckProposedVersion
+//@   requires db != nil
+//@   ensures[bad-version]   !isNilErr(callres(ParseVersion, 1, 1)) ==> status == ProposedRev_Error && !called(GetDocSyncDataNoImport, 1)
+//@   ensures[bad-previous]  called(ParseVersion, 2) && !isNilErr(callres(ParseVersion, 2, 1)) ==> status == ProposedRev_Error && !called(GetDocSyncDataNoImport, 1)
+//@   ensures[new-doc]       called(GetDocSyncDataNoImport, 1) && !isNilErr(callres(GetDocSyncDataNoImport, 1, 2)) ==> currentVersion == "" &&
+//@                          status == ite(isDocNotFoundErr(callres(GetDocSyncDataNoImport, 1, 2)) || errIs(callres(GetDocSyncDataNoImport, 1, 2), box(base.ErrXattrNotFound)), ProposedRev_OK_IsNew, ProposedRev_Error)
+//@   ensures[is-new-only-if-absent] status == ProposedRev_OK_IsNew ==> called(GetDocSyncDataNoImport, 1) && !isNilErr(callres(GetDocSyncDataNoImport, 1, 2))
+//@   ensures[exists-only-if-known] status == ProposedRev_Exists ==> called(GetDocSyncDataNoImport, 1) && isNilErr(callres(GetDocSyncDataNoImport, 1, 2)) &&
+//@                          ((callres(GetDocSyncDataNoImport, 1, 1) != nil && callres(GetDocSyncDataNoImport, 1, 1).DominatesSource(proposedVersion)) ||
+//@                           (parentIsCurrentRevTreeID(callres(IsRevTreeID, 1, 0), callres(GetDocSyncDataNoImport, 1, 0), previousRev) && proposedVersion.SourceID == encodedRevTreeSourceID && callres(LegacyRevToRevTreeEncodedVersion, 1, 0).Equal(proposedVersion)))
+//@   ensures[current-version-exists] called(GetDocSyncDataNoImport, 1) && isNilErr(callres(GetDocSyncDataNoImport, 1, 2)) && callres(GetDocSyncDataNoImport, 1, 1) != nil &&
+//@                          proposedVersion.SourceID != "" && proposedVersion.SourceID == callres(GetDocSyncDataNoImport, 1, 1).SourceID && proposedVersion.Value == callres(GetDocSyncDataNoImport, 1, 1).Version &&
+//@                          !parentIsCurrentRevTreeID(callres(IsRevTreeID, 1, 0), callres(GetDocSyncDataNoImport, 1, 0), previousRev) &&
+//@                          !parentIsCurrentVersion(callres(IsRevTreeID, 1, 0), callres(GetDocSyncDataNoImport, 1, 1), called(ParseVersion, 2), callres(ParseVersion, 2, 0))
+//@                          ==> status == ProposedRev_Exists
+//@   ensures[ok-only-if]    status == ProposedRev_OK ==> called(GetDocSyncDataNoImport, 1) && isNilErr(callres(GetDocSyncDataNoImport, 1, 2)) &&
+//@                          (parentIsCurrentRevTreeID(callres(IsRevTreeID, 1, 0), callres(GetDocSyncDataNoImport, 1, 0), previousRev) ||
+//@                           (callres(GetDocSyncDataNoImport, 1, 1) != nil && (parentIsCurrentVersion(callres(IsRevTreeID, 1, 0), callres(GetDocSyncDataNoImport, 1, 1), called(ParseVersion, 2), callres(ParseVersion, 2, 0)) ||
+//@                             (!callres(GetDocSyncDataNoImport, 1, 1).DominatesSource(proposedVersion) && (sameSourceNewer(callres(GetDocSyncDataNoImport, 1, 1), proposedVersion) ||
+//@                               (called(extractHLVFromBlipString, 1) && isNilErr(callres(extractHLVFromBlipString, 1, 2)) &&
+//@                                callres(extractHLVFromBlipString, 1, 0).DominatesSource(Version{SourceID: callres(GetDocSyncDataNoImport, 1, 1).SourceID, Value: callres(GetDocSyncDataNoImport, 1, 1).Version})))))))
+//@   ensures[no-hlv-conflict] called(GetDocSyncDataNoImport, 1) && isNilErr(callres(GetDocSyncDataNoImport, 1, 2)) && callres(GetDocSyncDataNoImport, 1, 1) == nil &&
+//@                          !parentIsCurrentRevTreeID(callres(IsRevTreeID, 1, 0), callres(GetDocSyncDataNoImport, 1, 0), previousRev) ==> status == ProposedRev_Conflict && currentVersion == callres(GetDocSyncDataNoImport, 1, 0).GetRevTreeID()
+
+// ---- legacy protocol: which of the offered revisions are unknown? ----
+
+// the closure RevDiff passes to forEachLeaf only records candidate ancestors in the local map possibleSet
+//@ func DatabaseCollectionWithUser.RevDiff$1
+//@   modifies elems(possibleSet)
+
+// RevDiff answers a `changes` entry (BLIP: one revision id per call, db/blip_handler.go:726) from the metadata it loads
+// (H = the history of the SyncData the load returned):
+//  - a revision id that is in H is never reported missing, so a caught-up peer that is offered revisions it already
+//    holds asks for nothing (and names no possible ancestors);
+//  - a revision id that is not in H is reported missing, and nothing is reported that was not offered;
+//  - when the document cannot be loaded everything offered is reported missing.
+// BOUND: len(revids) <= 1. The only replication call site passes exactly one id. The REST _revs_diff handler passes
+// several; that case is not covered: inside the loop RevDiff calls RevTree.forEachLeaf, whose contract (db/zz_verif_c04.go)
+// requires that no leaf of the tree has been recorded in the ghost set leafVisited yet, so it can be used once per tree
+// and function; a second iteration cannot establish it. The ghost precondition [no-leaf-recorded] is that bookkeeping.
+//@ pred noneRecorded() bool
+//@   is forall l string :: {l in leafVisited} !(l in leafVisited)
+
+//@ func DatabaseCollectionWithUser.RevDiff
+//@   requires db != nil && len(revids) <= 1
+//@   requires[no-leaf-recorded] noneRecorded()
+//@   modifies leafVisited
+//@   ensures[design-doc]  skippedDesignDoc(db, docid) ==> len(missing) == 0 && len(possible) == 0 && !called(GetDocSyncDataNoImport, 1)
+//@   ensures[unknown-doc] called(GetDocSyncDataNoImport, 1) && !isNilErr(callres(GetDocSyncDataNoImport, 1, 2)) ==> missing == revids && len(possible) == 0
+//@   ensures[known-not-missing] called(GetDocSyncDataNoImport, 1) && isNilErr(callres(GetDocSyncDataNoImport, 1, 2)) ==>
+//@                        (forall i int :: {missing[i]} 0 <= i && i < len(missing) ==> !(missing[i] in callres(GetDocSyncDataNoImport, 1, 0).History))
+//@   ensures[unknown-missing]   called(GetDocSyncDataNoImport, 1) && isNilErr(callres(GetDocSyncDataNoImport, 1, 2)) ==>
+//@                        (forall j int :: {revids[j]} 0 <= j && j < len(revids) && !(revids[j] in callres(GetDocSyncDataNoImport, 1, 0).History) ==> elem(missing, revids[j]))
+//@   ensures[only-offered]      called(GetDocSyncDataNoImport, 1) && isNilErr(callres(GetDocSyncDataNoImport, 1, 2)) ==>
+//@                        (forall i int :: {missing[i]} 0 <= i && i < len(missing) ==> elem(revids, missing[i]))
+//@   ensures[caught-up]   called(GetDocSyncDataNoImport, 1) && isNilErr(callres(GetDocSyncDataNoImport, 1, 2)) &&
+//@                        (forall j int :: {revids[j]} 0 <= j && j < len(revids) ==> (revids[j] in callres(GetDocSyncDataNoImport, 1, 0).History)) ==> len(missing) == 0 && len(possible) == 0
+//@   loop 1 invariant[first]  #index < 0 ==> leafVisited == old(leafVisited) && len(missing) == 0 && len(possibleSet) == 0
+//@   loop 1 invariant[known-not-missing] forall i int :: {missing[i]} 0 <= i && i < len(missing) ==> !(missing[i] in syncData.History)
+//@   loop 1 invariant[unknown-missing]   forall j int :: {revids[j]} 0 <= j && j <= #index && !(revids[j] in syncData.History) ==> elem(missing, revids[j])
+//@   loop 1 invariant[only-offered]      forall i int :: {missing[i]} 0 <= i && i < len(missing) ==> elem(revids, missing[i])
+//@   loop 1 invariant[caught-up]         (forall j int :: {revids[j]} 0 <= j && j <= #index ==> (revids[j] in syncData.History)) ==> len(missing) == 0 && len(possibleSet) == 0
+
+// legacyRevToHybridLogicalVector is TRUSTED (thin frame contract). Its body encodes the revision id as a version
+// (LegacyRevToRevTreeEncodedVersion: parsing and string padding, no memory written) and puts it into a NEW vector
+// (NewHybridLogicalVector + AddVersion on it); both error returns give nil, the success return gives that new vector.
+// Assumed: it writes no memory that existed before the call, and a nil error comes with a fresh non-nil vector.
+//@ func legacyRevToHybridLogicalVector
+//@   trusted
+//@   ensures[built] isNilErr(err) ==> hlv != nil && !old(allocated(now(hlv)))
+//@   ensures[error] !isNilErr(err) ==> hlv == nil
+
+// CheckChangeVersion answers a `changes` entry of the version-vector protocol (one offered revision `rev`). The vector
+// consulted is the loaded one or, for a document without one, the vector built from its current revision-tree id:
+//  - the offered revision is asked for (missing == [rev]) unless localVersionDominates(that vector, the offered
+//    version) -- whose contract says: only for a dominated version, and always for the document's own current version;
+//  - when it is not asked for, no possible ancestors are named either: nothing is transferred;
+//  - a document that cannot be loaded, or a revision that cannot be parsed, is asked for.
+//@ func DatabaseCollectionWithUser.CheckChangeVersion
+//@   requires db != nil
+//@   ensures[design-doc]  skippedDesignDoc(db, docid) ==> len(missing) == 0 && len(possible) == 0 && !called(GetDocSyncDataNoImport, 1)
+//@   ensures[unknown-doc] called(GetDocSyncDataNoImport, 1) && !isNilErr(callres(GetDocSyncDataNoImport, 1, 2)) ==> len(missing) == 1 && missing[0] == rev && len(possible) == 0
+//@   ensures[known]       called(localVersionDominates, 1) && callres(localVersionDominates, 1, 0) ==> len(missing) == 0 && len(possible) == 0
+//@   ensures[nothing-only-if-known] len(missing) == 0 ==> skippedDesignDoc(db, docid) || (called(localVersionDominates, 1) && callres(localVersionDominates, 1, 0))
+//@   ensures[asked]       !skippedDesignDoc(db, docid) && !(called(localVersionDominates, 1) && callres(localVersionDominates, 1, 0)) ==> len(missing) == 1 && missing[0] == rev
+//@   before[consults-loaded-vector] call localVersionDominates#1 isNilErr(callres(GetDocSyncDataNoImport, 1, 2)) && isNilErr(callres(parseIncomingChange, 1, 2)) && $1 == callres(parseIncomingChange, 1, 0) &&
+//@                        $0 == ite(callres(GetDocSyncDataNoImport, 1, 1) != nil, callres(GetDocSyncDataNoImport, 1, 1), callres(legacyRevToHybridLogicalVector, 1, 0))
